@@ -95,7 +95,27 @@ def run(ctx):
     ctx.check(I.getattr(I.getattr(e, "labile_formula"), "atoms") == {}, "R1", "empty sequence: empty formula", "not empty", site)
     rr = raises(lambda: seq("AXA"))
     ctx.check(rr == "KeyError", "R1", "a code outside the table is rejected (KeyError)", f"got {rr}", site)
-    ctx.floor("R1", 30)
+    # the residue tables are ordinary module dictionaries: an entry replaced (or added) after sequences of that type were
+    # built is what later sequences are made of (nothing derived from the tables may be remembered across sequences)
+    aa = I.symconst["fasta.CODE_TABLES"]["aa"]
+    old_A = aa["A"]
+    aa["A"] = res["C"]
+    aa["U"] = res["B"]
+    try:
+        for text, codes in (("AB", "CB"), ("UA", "BC")):
+            rr = raises(lambda: seq(text))
+            if rr is not None:
+                ctx.fail("R1", f"'{text}' after the table entry of A was replaced and U added: sum of the current entries", f"raises {rr}", site)
+                continue
+            s = seq(text)
+            vol, ch, atoms = expect(codes)
+            eq(ctx, "R1", f"cell volume of '{text}' after the table entry of A was replaced and U added", I.getattr(s, "cell_volume"), vol, site)
+            dict_eq(ctx, "R1", f"formula of '{text}' after the table entry of A was replaced and U added",
+                    I.getattr(I.getattr(s, "labile_formula"), "atoms"), atoms, site)
+    finally:
+        aa["A"] = old_A
+        del aa["U"]
+    ctx.floor("R1", 34)
 
     # ---- R2 averaged codes -------------------------------------------------------------------
     # the averaging helper: the function of fasta with two parameters that every module-level "averaged code" definition
@@ -163,7 +183,15 @@ def run(ctx):
             I.getattr(second, "atoms"), before, s_fm)
     rr = raises(lambda: I.call(fm, ["aa:AB*C C"], {}))
     ctx.check(rr is None, "R3", "the prefix route accepts '*' and spaces like the class", f"raises {rr}", s_fm)
-    ctx.floor("R3", 9)
+    # length 0 is part of the domain: the class gives the empty molecule, so does the prefix
+    for pre in ("aa", "dna", "rna"):
+        try:
+            rr = raises(lambda: I.call(fm, [f"{pre}:"], {}))
+        except UnexpectedParse as exc:
+            rr = "the text parser was asked for " + str(exc)[:80]
+        ok0 = rr is None and I.getattr(I.call(fm, [f"{pre}:"], {}), "atoms") == {}
+        ctx.check(ok0, "R3", f"formula('{pre}:') is the empty sequence's (empty) formula", f"raises {rr}" if rr else "not empty", s_fm)
+    ctx.floor("R3", 12)
 
     # ---- R4 FASTA text -----------------------------------------------------------------------
     rf = I.global_name("fasta", "read_fasta")
@@ -171,6 +199,8 @@ def run(ctx):
     cases = [([">one", "ABC", "A B", ">two desc", "CC"], [(">one", "ABCA B"), (">two desc", "CC")]),
              ([">only", "AB\n", "CA  \n"], [(">only", "ABCA")]),
              ([">a", ">b", "C"], [(">a", ""), (">b", "C")]),
+             ([">sp|P1 variant c.200C>A", "AB", ">two", "C"], [(">sp|P1 variant c.200C>A", "AB"), (">two", "C")]),
+             ([">x", "", "AB", "", "C"], [(">x", "ABC")]),
              ([], []),
              (["junk before header", ">a", "AB"], [(">a", "AB")])]
     for lines, want in cases:
@@ -179,8 +209,25 @@ def run(ctx):
                   f"records {got!r}, expected {want!r} (one record per '>' header, lines concatenated, last record flushed)", s_rf)
     # the function that chooses the sequence type from the file name: what Sequence.load and loadall both call first
     from .common import callees_in_common
-    gq = [q_ for q_ in callees_in_common(ctx, "fasta.Sequence.load", "fasta.Sequence.loadall", exclude=("fasta.read_fasta",))
-          if len(ctx.src.func(q_).node.args.args + ctx.src.func(q_).node.args.kwonlyargs) == 2 and "Sequence" not in q_]
+    import networkx as nx
+    cg = ctx.src.callgraph()
+    roots_ = {ctx.src.func(q_).qual for q_ in ("fasta.Sequence.load", "fasta.Sequence.loadall")}
+    # what the two readers reach before a Sequence is constructed (methods of classes are not part of reading the file)
+    cg = cg.subgraph([n_ for n_ in cg if n_ in roots_ or ctx.src.func(n_).cls is None])
+    reach = [set(nx.descendants(cg, ctx.src.func(q_).qual)) if ctx.src.func(q_).qual in cg else set()
+             for q_ in ("fasta.Sequence.load", "fasta.Sequence.loadall")]
+
+    def plain_two_arg(q_):
+        # (file name, explicit type) -> type: two parameters, not a generator, does not open or read anything itself
+        if not ctx.src.has_func(q_) or "Sequence" in q_ or not q_.startswith("fasta."):
+            return False
+        fn_ = ctx.src.func(q_)
+        if len(fn_.node.args.args + fn_.node.args.kwonlyargs) != 2:
+            return False
+        if any(isinstance(n_, (ast.Yield, ast.YieldFrom)) for n_ in ast.walk(fn_.node)):
+            return False
+        return not any(isinstance(n_, ast.Call) and isinstance(n_.func, ast.Name) and n_.func.id == "open" for n_ in ast.walk(fn_.node))
+    gq = sorted(q_ for q_ in (reach[0] & reach[1]) if plain_two_arg(q_))
     if len(gq) != 1:
         raise AnalysisError(f"file-type helper of Sequence.load/loadall not identified (candidates {gq})")
     g = I.global_name(*gq[0].split(".", 1))
